@@ -141,6 +141,7 @@ type opRec struct {
 	Op    string `json:"op"`
 	K     int    `json:"k"`
 	V     int    `json:"v"`
+	L     []int  `json:"l,omitempty"` // SetList: the list written
 	Res   []any  `json:"res"`
 	First int    `json:"first"`
 	Last  int    `json:"last"`
@@ -665,6 +666,9 @@ func doOpV(h *hybrid.Storage, keys []string, op opIn) ([]any, any) {
 	switch op.Op {
 	case "set":
 		return resErr(h.Set(key, val, 0)), nil
+	case "setlist": // the facade's third list writer: SetList(key, values, ttl)
+		l, _ := val.([]interface{})
+		return resErr(h.SetList(key, l, 0)), nil
 	case "get":
 		v, err := h.Get(key)
 		if err != nil {
@@ -784,6 +788,9 @@ func runSched(c caseIn) *caseOut {
 			close(ready)
 			for _, op := range t.Ops {
 				rec := &opRec{Op: op.Op, K: op.K, V: op.V, First: -1, Last: -1}
+				if op.L != nil {
+					rec.L = append([]int{}, (*op.L)...)
+				}
 				s.mu.Lock()
 				s.cur[i] = rec
 				s.mu.Unlock()
@@ -950,7 +957,7 @@ func runSched(c caseIn) *caseOut {
 			return false
 		}
 		switch rec.Op {
-		case "set", "del", "setnx", "incr", "incrby", "setexp":
+		case "set", "setlist", "del", "setnx", "incr", "incrby", "setexp":
 			return true
 		case "append", "remove":
 			return c.Locks == "wb+list" || rec.First >= 0
@@ -1237,6 +1244,10 @@ func aliasPreds(c caseIn, out *caseOut, all []*opRec, kind func(int) string) []v
 			switch o.Op {
 			case "append":
 				legit[o.V] = true
+			case "setlist":
+				for _, e := range o.L {
+					legit[e] = true
+				}
 			case "set", "setnx":
 				clean = false
 			}
@@ -1303,6 +1314,8 @@ func staleReads(c caseIn, k int, all []*opRec, init string) []viol {
 		switch o.Op {
 		case "set":
 			muts = append(muts, mut{o.First, o.Last, canon([]any{0, o.V}), code == 0, fmt.Sprintf("Set(v%d)", o.V)})
+		case "setlist":
+			muts = append(muts, mut{o.First, o.Last, canon([]any{1, o.L}), code == 0, fmt.Sprintf("SetList(%v)", o.L)})
 		case "del":
 			muts = append(muts, mut{o.First, o.Last, "none", code == 0, "Delete"})
 		case "setnx":
@@ -1452,6 +1465,7 @@ func counterPred(c caseIn, k int, all []*opRec) []viol {
 // make no claim about elements added before them.
 func listPred(c caseIn, k int, all []*opRec, got map[int]bool) []viol {
 	var out []viol
+	var setlists []*opRec
 	removes := map[int]bool{}
 	removedOK := map[int]bool{}
 	appended := map[int]bool{}
@@ -1461,6 +1475,9 @@ func listPred(c caseIn, k int, all []*opRec, got map[int]bool) []viol {
 		}
 		if o.Op == "set" || o.Op == "del" || o.Op == "setnx" {
 			return nil
+		}
+		if o.Op == "setlist" {
+			setlists = append(setlists, o)
 		}
 		if o.Op == "remove" {
 			removes[o.V] = true
@@ -1479,6 +1496,26 @@ func listPred(c caseIn, k int, all []*opRec, got map[int]bool) []viol {
 				initial[e] = true
 			}
 		}
+	}
+	if len(setlists) > 1 {
+		return nil // several SetList calls: which one is last depends on the schedule; the model comparison decides
+	}
+	if len(setlists) == 1 {
+		// ONE SetList: once it has returned nil its members stay (nobody removes them) and every Append that began afterwards is added
+		sl := setlists[0]
+		if int(toInt(sl.Res[0])) == 0 {
+			for _, e := range sl.L {
+				if !removes[e] && !got[e] {
+					out = append(out, viol{Kind: "list-lost-setlist", K: k, Msg: fmt.Sprintf("SetList(%v) on %q returned nil but member e%d is not in the list read back after all calls returned", sl.L, c.Keys[k], e)})
+				}
+			}
+		}
+		for _, o := range all {
+			if o.K == k && o.Op == "append" && int(toInt(o.Res[0])) == 0 && o.First > sl.Last && !removes[o.V] && !got[o.V] {
+				out = append(out, viol{Kind: "list-lost-append", K: k, Msg: fmt.Sprintf("Append(e%d) to %q began after SetList returned, returned nil, but e%d is not in the list read back", o.V, c.Keys[k], o.V)})
+			}
+		}
+		return out
 	}
 	for e := range appended {
 		if !removes[e] && !got[e] {
